@@ -881,4 +881,17 @@ func c02Enumerate(thorough bool, builtins []string, emit c02Emit) {
 	} else {
 		c02L4("http", builtins, 1, emit)
 	}
+	// binder x visible name; aliasing histories; the body grammar
+	c02L7("engine", emit)
+	c02L7("http", emit)
+	if thorough {
+		c02L8("engine", false, 4, []int{0, 1, 2, 3, 4}, emit)
+		c02L8From("engine", true, 3, 3, []int{3}, emit)
+		c02L8("http", true, 2, []int{3}, emit)
+	} else {
+		c02L8("engine", false, 3, []int{3}, emit)
+		c02L8From("engine", true, 2, 2, []int{3}, emit)
+		c02L8("http", false, 2, nil, emit)
+	}
+	c02BodyMatrix(emit, thorough)
 }
